@@ -484,7 +484,7 @@ func translatorValidation(eng *Engine, native *NativeRunner, fn *ssa.Function, o
 	bf := filepath.Join(native.scratch, "bounds_"+o.Harness+".json")
 	data, _ := json.Marshal(map[string]interface{}{"bounds": bounds, "vector": []VecEntry{}})
 	os.WriteFile(bf, data, 0o644)
-	recs, out, err := native.RandomRuns(o.Pkg, pkgName, harnesses, o.Harness, seed, o.TV*4, bf)
+	recs, out, err := native.RandomRuns(o.Pkg, pkgName, harnesses, o.Harness, seed, o.TV*12, bf)
 	if err != nil {
 		return 0, 0, fmt.Sprintf("%v\n%s", err, tail(out, 30))
 	}
